@@ -107,6 +107,17 @@ CLAIMS = {
         "Trusted: rustc / driver / engine; dashmap's entry API holds the shard lock for the entry's lifetime; atomic conditional PUT.",
         "static analysis: MIR comparison-edge dominance, value provenance, guard-span liveness",
         "DESIGN.md §3 C13"),
+    "C08": (
+        "R1 acquire (both backends): the conflict filter, symbolically evaluated from HIR, equals `status Active and expires_at > now` on every ordering of "
+        "(expires_at, now) and both status values; the purge before the check keeps every live lease and drops every expired-active one (so a reclaimed "
+        "holder's renew finds nothing); the insert is dominated by conflicts.is_empty(); new lease = {Active, now + TTL} with the check's `now`; in-memory: "
+        "the table's write guard is live from check to insert; R2 renew succeeds only on the Some edge of the lookup and the Active edge of the status test, "
+        "complete/fail set exactly their terminal status; R3 scavenge keeps exactly the live leases; R4 renewal interval (120 s) < every TTL / extension "
+        "constant (4 sites, 300 s); R5 the lease file is written only through the conditional save with the same iteration's token, a failed save is never "
+        "reported as success, and no unconditional object-store write exists in the metadata client. Not decided: wall-clock agreement between nodes.",
+        "Trusted: rustc / driver / engine (symeval, ordering abstraction); chrono comparison is a total order; all nodes read the same clock (stated in the property).",
+        "static analysis: symbolic evaluation of closures + exhaustive ordering abstraction; MIR edge dominance; guard-span liveness; constant comparison",
+        "DESIGN.md §3 C08"),
 }
 
 NOT_YET = "rule set under construction in this round; see DESIGN.md §3 for the planned static rules"
